@@ -62,6 +62,9 @@ def _child_of_content(e, site_defs, depth=0):
     return None
 
 
+_SIBLING_STEPS = set()
+
+
 def rule_axis(rep, fb, methods=AXIS_METHODS, floor=40, name="AXIS.depth"):
     r = rep.rule(name, "in every (axis, depth) method, a recursive call on the node one level down in a list class passes depth+1, "
                  "a call on the node itself re-encoded or on the content of a non-list class passes depth; the axis passed on is axis or the wrapped posaxis; "
@@ -111,6 +114,22 @@ def rule_axis(rep, fb, methods=AXIS_METHODS, floor=40, name="AXIS.depth"):
                                 if d[3] is not None and find_all((d[3],), lambda n: n[0] == "mcall" and n[1] == "axis_wrap_if_negative") and find_all((d[3],), lambda n: n == ("var", "axis")):
                                     okaxis = True
                         r.check(okaxis, key + ":axis", where, "%s::%s passes '%s' as axis (expected axis or the wrapped posaxis)" % (cls, f["name"], unparse(aa)))
+                        # one level down the axis must be the wrapped one: a negative axis re-wrapped by the child is counted from the wrong node
+                        if df == "depth+1" and find_all(f["body"], lambda n: n[0] == "decl" and n[3] is not None and find_all((n[3],), lambda k: k[0] == "mcall" and k[1] == "axis_wrap_if_negative")):
+                            r.check(aa != ("var", "axis"), key + ":wrapped", where, "%s::%s recurses one level down (depth + 1) with the raw `axis` although it has computed the wrapped posaxis: a negative axis is wrapped again, relative to the child" % (cls, f["name"]),
+                                    detail="depth + 1 goes with the wrapped axis")
+                    # a recursive step must stay in the same operation: calling a sibling (axis, depth) method on the content changes the operation below this level
+                    for m in find_all((e,), lambda n: n[0] == "mcall" and n[1] in methods and n[1] != f["name"] and len(n[4]) >= 2):
+                        args = m[4]
+                        if not (any(_depth_form(a) in ("depth", "depth+1") for a in args) and any(cexpr(a) in (("var", "axis"), ("var", "posaxis")) for a in args)):
+                            continue
+                        if m[3] == ("this",):
+                            continue   # the node's own sibling operation under a guard (rpad -> rpad_and_clip when nothing is clipped): not a step into the content
+                        where = "%s:%d" % (f["file"], m[-1])
+                        key = "%s::%s->%s#sibling" % (cls, f["name"], m[1])
+                        allowed = (f["name"], m[1]) in _SIBLING_STEPS
+                        r.check(allowed, key, where, "%s::%s continues the recursion with %s(...) - a different (axis, depth) operation - on %s" % (cls, f["name"], m[1], unparse(cexpr(m[3]))[:50]),
+                                detail="tabled sibling step")
         each_block_cont(f["body"], onblock)
         # comparisons between (pos)axis and depth
         for c in find_all(f["body"], lambda n: n[0] == "bin" and n[1] in ("==", "!=", "<", "<=", ">", ">=")):
